@@ -244,3 +244,46 @@ ASSUMPTIONS = [
 OUTSIDE = ['crash atomicity of the save itself', 'TIMESTAMP refresh by the CLI (C11)',
            'operation sequences longer than init+verify/lookups or update(+save)']
 STUBS = ['ModelFS seams', 'ManifestFile.load/dump wrappers']
+
+
+def validate(seed, tier):
+    """real filesystem: verify, update of a sub-directory and of the whole tree never touch a
+    non-Manifest file (bytes and st_mtime_ns) and keep DIST/IGNORE/TIMESTAMP lines"""
+    from vf.realcheck import RealTree, gemato
+    agree, details, errs = 0, [], []
+    t = RealTree()
+    try:
+        for n, d in (('a', b'aa'), ('sub/c', b'ccc'), ('subx/k', b'k'), ('sub.conf', b'j'),
+                     ('ig/q', b'q')):
+            t.write(n, d, mtime=1500000000)
+        t.write('sub/Manifest', b'DIST d2.tar 5 MD5 00\nIGNORE ig2\n')
+        t.write('Manifest', b'TIMESTAMP 2020-01-02T03:04:05Z\nDIST d1.tar 9 MD5 11\n'
+                            b'IGNORE ig\nIGNORE gone\nMANIFEST sub/Manifest 0\n')
+        before = t.snapshot(False)
+        for step in (('verify', t.root), ('update', '-H', 'MD5', t.root + '/sub'),
+                     ('verify', t.root), ('update', '-H', 'MD5', t.root), ('verify', t.root)):
+            rc, out = gemato(*step)
+            if t.snapshot(False) != before:
+                errs.append(f'{step[0]} modified a non-Manifest file')
+            else:
+                agree += 1
+            if step[-1].endswith('/sub') and 'TIMESTAMP 2020-01-02T03:04:05Z' not in \
+                    t.read('Manifest').decode().splitlines():
+                errs.append('sub-directory update changed the TIMESTAMP')
+        top = t.read('Manifest').decode()
+        sub = t.read('sub/Manifest').decode()
+        # (a whole-tree `gemato update` refreshes an existing TIMESTAMP by design)
+        if len([ln for ln in top.splitlines() if ln.startswith('TIMESTAMP ')]) != 1:
+            errs.append('top Manifest does not carry exactly one TIMESTAMP')
+        for line in ('DIST d1.tar 9 MD5 11', 'IGNORE ig', 'IGNORE gone'):
+            if line not in top.splitlines():
+                errs.append(f'top Manifest lost line {line!r}')
+        for line in ('DIST d2.tar 5 MD5 00', 'IGNORE ig2'):
+            if line not in sub.splitlines():
+                errs.append(f'sub Manifest lost line {line!r}')
+        if rc != 0:
+            errs.append('tree does not verify after the updates: ' + out[-200:])
+        details.append({'steps': 5})
+    finally:
+        t.close()
+    return agree, details, errs
